@@ -538,8 +538,13 @@ C13r(r) == C13rVis(r) \cup C13rCl(r)
 C09N(r) == IF r.cfg.name_on THEN (IF C09(r) \ {"C09.effective"} # {} THEN {"C10.name_in_run"} ELSE {}) \cup (C09(r) \cap {"C09.effective"})
            ELSE C09(r)
 ClausesX(r) == C01(r) \cup C02(r) \cup C03(r) \cup C09N(r) \cup C12(r) \cup C13r(r) \cup C18(r) \cup C18Marks(r) \cup C18UserLog(r)
-Clauses(r0) == LET r == Enrich(r0) IN ClausesX(r) \cup C12Pair(r) \cup C18Log(r0)
-PairClauses(r0) == C12Pair(Enrich(r0))
+\* rows whose faulty hooks raise KeyboardInterrupt (r0.kbd): the user interrupts the run while a hook is running.  The
+\* listed quantifiers give hooks Exceptions and AssertionErrors and give KeyboardInterrupt to steps; what behave does here
+\* (Run.tla: KbdUnwind) is specified and its conformance is measured, but of the properties only the run verdict is judged:
+\* an aborted run reports failure (C01).  A run the interrupt left altogether (before_all / after_all) is not judged
+ClausesKbd(r0) == IF ~r0.end.ran THEN {} ELSE C01(Enrich(r0)) \ {"C01.crash"}
+Clauses(r0) == IF r0.kbd THEN ClausesKbd(r0) ELSE LET r == Enrich(r0) IN ClausesX(r) \cup C12Pair(r) \cup C18Log(r0)
+PairClauses(r0) == IF r0.kbd THEN {} ELSE C12Pair(Enrich(r0))
 ExitClauses(r0) == C01Exit([Enrich(r0) EXCEPT !.base = r0.base] @@ [exit |-> r0.exit])
 \* on behaviours of the specification itself (no probes of the driver's context instrumentation)
 ClausesMCX(r) == C01(r) \cup C02(r) \cup C03(r) \cup C09N(r) \cup C12(r) \cup C13rCl(r) \cup C18(r) \cup C18Marks(r) \cup C18UserLog(r)
